@@ -13,7 +13,7 @@ func primevHandlers() {
 	const p = pkgPrimev + "."
 
 	// DELETE FROM provider_registry_events WHERE block_number >= $1
-	reg(p+"DeleteProviderRegistryEventsFromBlockNumber", "?", params(i8), nil, ordered,
+	reg(p+"DeleteProviderRegistryEventsFromBlockNumber", "1c60c8c49e419642", params(i8), nil, ordered,
 		deleteStmt("provider_registry_events", func(r Row, a []any) bool { return sqlGe(r["block_number"], a[0]) }))
 
 	// SELECT c.tx_hashes, c.provider_address, c.commitment_signature, c.commitment_digest, c.block_number,
@@ -25,7 +25,7 @@ func primevHandlers() {
 	// it as text (OID 25), although sqlc generated a []string parameter.  pgfake
 	// reports text like PostgreSQL does; pgx then fails to encode the []string
 	// argument on the client side.  No ORDER BY.
-	reg(p+"GetCommitmentByTxHash", "?", params(txt), starCols("commitment"), unordered,
+	reg(p+"GetCommitmentByTxHash", "c78b15cae0680a2f", params(txt), starCols("commitment"), unordered,
 		selectStmt("commitment", allCols("commitment"), func(r Row, a []any) bool {
 			if a[0] == nil || r["tx_hashes"] == nil {
 				return false
@@ -39,7 +39,7 @@ func primevHandlers() {
 		}, nil, -1))
 
 	// SELECT enforce_one_row, block_hash, block_number FROM provider_registry_events_synced_until LIMIT 1
-	reg(p+"GetProviderRegistryEventsSyncedUntil", "?", nil, starCols("provider_registry_events_synced_until"), unordered,
+	reg(p+"GetProviderRegistryEventsSyncedUntil", "7ae6aa6a47ac1399", nil, starCols("provider_registry_events_synced_until"), unordered,
 		selectStmt("provider_registry_events_synced_until", allCols("provider_registry_events_synced_until"), nil, nil, 1))
 
 	// WITH inserted_transactions AS (
@@ -85,7 +85,7 @@ func primevHandlers() {
 	//     (commitment_signature and block_number keep their old values).
 	//  4. The foreign key committed_transactions -> commitment is checked at
 	//     the end of the statement, when the commitment exists.
-	reg(p+"InsertMultipleTransactionsAndUpsertCommitment", "?",
+	reg(p+"InsertMultipleTransactionsAndUpsertCommitment", "d678205eba689df8",
 		params(i8Arr, txtArr, txtArr, i8Arr, txtArr, txt, txt, txt, i8, txt, txt, txt),
 		colsOf("commitment", "tx_hashes", "provider_address"), ordered,
 		func(tx *Store, a []any) ([][]any, string, error) {
@@ -142,7 +142,7 @@ func primevHandlers() {
 	// ON CONFLICT (block_number, tx_index, log_index) DO UPDATE SET
 	// block_number = $1, block_hash = $2, tx_index = $3, log_index = $4, bls_keys = $6
 	// (provider_address keeps its old value on conflict)
-	reg(p+"InsertProviderRegistryEvent", "?", params(i8, bya, i8, i8, txt, byaArr), nil, ordered,
+	reg(p+"InsertProviderRegistryEvent", "08ebd27de285fae8", params(i8, bya, i8, i8, txt, byaArr), nil, ordered,
 		insertStmt("provider_registry_events",
 			[]string{"block_number", "block_hash", "tx_index", "log_index", "provider_address", "bls_keys"},
 			setParams([]string{"block_number", "tx_index", "log_index"}, map[string]int{
@@ -150,7 +150,7 @@ func primevHandlers() {
 
 	// INSERT INTO provider_registry_events_synced_until (block_hash, block_number) VALUES ($1, $2)
 	// ON CONFLICT (enforce_one_row) DO UPDATE SET block_hash = $1, block_number = $2
-	reg(p+"SetProviderRegistryEventsSyncedUntil", "?", params(bya, i8), nil, ordered,
+	reg(p+"SetProviderRegistryEventsSyncedUntil", "99158fe1d49f4ee1", params(bya, i8), nil, ordered,
 		insertStmt("provider_registry_events_synced_until", []string{"block_hash", "block_number"},
 			setParams([]string{"enforce_one_row"}, map[string]int{"block_hash": 1, "block_number": 2})))
 }
@@ -163,38 +163,38 @@ func observerHandlers() {
 		// WHERE activation_block_number <= $1
 		// ORDER BY activation_block_number DESC LIMIT 1
 		// (activation_block_number is not unique: among ties the scan order decides)
-		reg(p+"GetKeyperSet", "?", params(i8), starCols("keyper_set"), unordered,
+		reg(p+"GetKeyperSet", "af0d71f87f529eae", params(i8), starCols("keyper_set"), unordered,
 			selectStmt("keyper_set", allCols("keyper_set"), func(r Row, a []any) bool { return sqlLe(r["activation_block_number"], a[0]) },
 				[]sortKey{desc("activation_block_number")}, 1))
 
 		// SELECT ... FROM keyper_set WHERE keyper_config_index=$1
-		reg(p+"GetKeyperSetByKeyperConfigIndex", "?", params(i8), starCols("keyper_set"), ordered,
+		reg(p+"GetKeyperSetByKeyperConfigIndex", "0dfcb243eb78241a", params(i8), starCols("keyper_set"), ordered,
 			selectStmt("keyper_set", allCols("keyper_set"), func(r Row, a []any) bool { return sqlEq(r["keyper_config_index"], a[0]) }, nil, -1))
 
 		// SELECT ... FROM keyper_set ORDER BY activation_block_number ASC   (ties in scan order)
-		reg(p+"GetKeyperSets", "?", nil, starCols("keyper_set"), unordered,
+		reg(p+"GetKeyperSets", "c84808c4c940f3ea", nil, starCols("keyper_set"), unordered,
 			selectStmt("keyper_set", allCols("keyper_set"), nil, []sortKey{asc("activation_block_number")}, -1))
 
 		// INSERT INTO keyper_set (keyper_config_index, activation_block_number, keypers, threshold)
 		// VALUES ($1, $2, $3, $4) ON CONFLICT DO NOTHING
-		reg(p+"InsertKeyperSet", "?", params(i8, i8, txtArr, i4), nil, ordered,
+		reg(p+"InsertKeyperSet", "b7344c84bf3ccedf", params(i8, i8, txtArr, i4), nil, ordered,
 			insertStmt("keyper_set", []string{"keyper_config_index", "activation_block_number", "keypers", "threshold"}, always(doNothing())))
 	}
 	{
 		const p = pkgObsSync + "."
 
 		// SELECT next_block_number, next_log_index FROM event_sync_progress LIMIT 1
-		reg(p+"GetEventSyncProgress", "?", nil, colsOf("event_sync_progress", "next_block_number", "next_log_index"), unordered,
+		reg(p+"GetEventSyncProgress", "070941a2453da0d6", nil, colsOf("event_sync_progress", "next_block_number", "next_log_index"), unordered,
 			selectStmt("event_sync_progress", []string{"next_block_number", "next_log_index"}, nil, nil, 1))
 
 		// SELECT next_block_number from event_sync_progress LIMIT 1
-		reg(p+"GetNextBlockNumber", "?", nil, colsOf("event_sync_progress", "next_block_number"), unordered,
+		reg(p+"GetNextBlockNumber", "865f5391206c49ee", nil, colsOf("event_sync_progress", "next_block_number"), unordered,
 			selectStmt("event_sync_progress", []string{"next_block_number"}, nil, nil, 1))
 
 		// INSERT INTO event_sync_progress (next_block_number, next_log_index) VALUES ($1, $2)
 		// ON CONFLICT (id) DO UPDATE SET next_block_number = $1, next_log_index = $2
 		// (both columns are integer = int4)
-		reg(p+"UpdateEventSyncProgress", "?", params(i4, i4), nil, ordered,
+		reg(p+"UpdateEventSyncProgress", "81ab57d7505cf564", params(i4, i4), nil, ordered,
 			insertStmt("event_sync_progress", []string{"next_block_number", "next_log_index"},
 				setParams([]string{"id"}, map[string]int{"next_block_number": 1, "next_log_index": 2})))
 	}
@@ -203,12 +203,12 @@ func observerHandlers() {
 
 		// SELECT activation_block_number, collator FROM chain_collator
 		// WHERE activation_block_number <= $1 ORDER BY activation_block_number DESC LIMIT 1   (primary key)
-		reg(p+"GetChainCollator", "?", params(i8), starCols("chain_collator"), ordered,
+		reg(p+"GetChainCollator", "5ba140383d196fe3", params(i8), starCols("chain_collator"), ordered,
 			selectStmt("chain_collator", allCols("chain_collator"), func(r Row, a []any) bool { return sqlLe(r["activation_block_number"], a[0]) },
 				[]sortKey{desc("activation_block_number")}, 1))
 
 		// INSERT INTO chain_collator (activation_block_number, collator) VALUES ($1, $2)
-		reg(p+"InsertChainCollator", "?", params(i8, txt), nil, ordered,
+		reg(p+"InsertChainCollator", "a8baa3633ba7b161", params(i8, txt), nil, ordered,
 			insertStmt("chain_collator", []string{"activation_block_number", "collator"}, nil))
 	}
 }
@@ -217,15 +217,15 @@ func medleyHandlers() {
 	const p = pkgMedleyDB + "."
 
 	// SELECT value FROM meta_inf WHERE key = $1
-	reg(p+"GetMeta", "?", params(txt), colsOf("meta_inf", "value"), ordered,
+	reg(p+"GetMeta", "1aa8651745003bd8", params(txt), colsOf("meta_inf", "value"), ordered,
 		selectStmt("meta_inf", []string{"value"}, func(r Row, a []any) bool { return sqlEq(r["key"], a[0]) }, nil, -1))
 
 	// INSERT INTO meta_inf (key, value) VALUES ($1, $2)
-	reg(p+"InsertMeta", "?", params(txt, txt), nil, ordered,
+	reg(p+"InsertMeta", "899dc8a5097ec082", params(txt, txt), nil, ordered,
 		insertStmt("meta_inf", []string{"key", "value"}, nil))
 
 	// UPDATE meta_inf SET value = $1 WHERE key = $2
-	reg(p+"UpdateMeta", "?", params(txt, txt), nil, ordered,
+	reg(p+"UpdateMeta", "0e7febdc46c461eb", params(txt, txt), nil, ordered,
 		func(tx *Store, a []any) ([][]any, string, error) {
 			u, err := tx.updateWhere("meta_inf",
 				func(r Row) bool { return sqlEq(r["key"], a[1]) },
